@@ -1005,6 +1005,20 @@ def comment_injection_cases(snippets=REREAD_SNIPPETS, pairs=True):
     return cases
 
 
+def line_end_comment_cases():
+    """comments at the END of every line of every snippet (where struct fields take a trailing comment): one, two on
+    the line, one followed by a comment on the next line, by a blank line and a comment, by a general comment"""
+    cases = []
+    for sn in EDIT_SNIPPETS:
+        src0 = "package p\n\n" + sn + "\n"
+        ends = [i for i, ch in enumerate(src0) if ch == "\n" and i > 0 and src0[i - 1] not in "\n`"]
+        for k, e in enumerate(ends):
+            for ins in (" /*t%d*/", " // t%d", " /*t%d*/ /*u*/", " /*t%d*/ // u", " // t%d\n\t// n", " // t%d\n\n\t// n", " /*t%d*/\n\t/* n\n */",
+                        " /* t%d\n\tcontinued */", " // t%d\n\t// n1\n\t// n2"):
+                cases.append(Case(src0[:e] + ins % k + src0[e:], "F-comment-line-end", note=sn[:30]))
+    return cases
+
+
 # ------------------------------------------------------------------ C12: documentation families (expected docs by construction)
 
 def docs_cases(seed, n):
@@ -1098,7 +1112,20 @@ def docs_cases(seed, n):
                 else:
                     lines.append("func %s() {" % name)
                     lines.append("\t// inside %s" % name)
-                    lines.append("\tx := 1 /* in */")
+                    r2 = rng.random()
+                    if r2 < 0.35:
+                        # a comment above code that takes no documentation, and on that line something that does:
+                        # the comment belongs to neither
+                        lines.append("\tx := 1; var y%s int" % name)
+                        expected.append(("DeclVar", []))
+                        expected.append(("VarSpec", []))
+                    elif r2 < 0.5:
+                        lines.append("\tfor x := 0; x < 1; x++ { type t%s struct { f int } }" % name)
+                        expected.append(("DeclType", []))
+                        expected.append(("TypeSpec", []))
+                        expected.append(("Field", []))
+                    else:
+                        lines.append("\tx := 1 /* in */")
                     if rng.random() < 0.5:
                         lines.append("\t// last inside")
                     lines.append("}")
@@ -1107,7 +1134,15 @@ def docs_cases(seed, n):
                 # a single-spec declaration carries its docs on the spec
                 expected.append(({"var": "DeclVar", "const": "DeclConst", "type": "DeclType"}[kind], []))
                 expected.append(({"var": "VarSpec", "const": "ConstSpec", "type": "TypeSpec"}[kind], d))
-                lines.append({"var": "var %s int", "const": "const %s = 1", "type": "type %s int"}[kind] % name)
+                if rng.random() < 0.15:
+                    # the keyword alone on its line, comments on their own lines, then the name: a comment after the
+                    # keyword documents nothing (the declaration's documentation stands above the keyword)
+                    lines.append(kind)
+                    cid[0] += 1
+                    lines.append("// k%d after the keyword" % cid[0])
+                    lines.append({"var": "%s int", "const": "%s = 1", "type": "%s int"}[kind] % name)
+                else:
+                    lines.append({"var": "var %s int", "const": "const %s = 1", "type": "type %s int"}[kind] % name)
             elif kind in ("vargroup", "typegroup"):
                 d = before()
                 expected.append(("DeclVar" if kind == "vargroup" else "DeclType", d))
